@@ -163,7 +163,7 @@ theorem nf_var_limit_witness (nf : NF) :
     convertToBoolExpression q nf .cnf c = .error "ValueError" := by
   intro q c
   have h : (q.nfVarLimit && (Form.cnf == Form.cnf || Form.cnf == Form.dnf)
-      && decide ((dedupStrings c.syms).length > 8)) = true := by decide
+      && decide ((dedupStrings (preds c)).length > 8)) = true := by decide
   simp only [convertToBoolExpression, nfCall, h, if_true]
 
 /-- defect in the *parameter* (sympy 1.12 `to_anf` maps `~(a ^ ~a)` to `True`): with a normal
